@@ -37,20 +37,69 @@ func (c *Ctx) capSym(fr *Frame, e ast.Expr, branch bool) string {
 	if !ok {
 		return ""
 	}
-	lc, lok := ast.Unparen(be.X).(*ast.CallExpr)
-	rc, rok := ast.Unparen(be.Y).(*ast.CallExpr)
-	if !lok || !rok {
-		return ""
+	info := fr.Fn.Info()
+	// an operand is a Load of the field, or a local whose only assignment is such a Load; in the latter case
+	// the value is "stale" unless the assignment sits inside the innermost loop that contains the comparison
+	operand := func(x ast.Expr) (field string, stale bool) {
+		x = ast.Unparen(x)
+		if call, ok := x.(*ast.CallExpr); ok {
+			if fk, m := atomicOp(info, call); m == "Load" {
+				return fk, false
+			}
+			return "", false
+		}
+		id, ok := x.(*ast.Ident)
+		if !ok {
+			return "", false
+		}
+		obj := info.ObjectOf(id)
+		var src *ast.CallExpr
+		var at ast.Node
+		n := 0
+		ast.Inspect(fr.Fn.Body, func(nd ast.Node) bool {
+			as, ok := nd.(*ast.AssignStmt)
+			if !ok {
+				return true
+			}
+			for i, l := range as.Lhs {
+				if lid, ok := l.(*ast.Ident); ok && info.ObjectOf(lid) == obj && obj != nil {
+					n++
+					if len(as.Rhs) == len(as.Lhs) {
+						if call, ok := ast.Unparen(as.Rhs[i]).(*ast.CallExpr); ok {
+							src, at = call, as
+						}
+					}
+				}
+			}
+			return true
+		})
+		if n != 1 || src == nil {
+			return "", false
+		}
+		fk, m := atomicOp(info, src)
+		if m != "Load" {
+			return "", false
+		}
+		// innermost loop containing the comparison
+		var loop ast.Node
+		for _, nd := range enclosingChain(fr.Fn.Body, e) {
+			switch nd.(type) {
+			case *ast.ForStmt, *ast.RangeStmt:
+				loop = nd
+			}
+		}
+		if loop == nil {
+			return fk, false
+		}
+		inside := at.Pos() >= loop.Pos() && at.End() <= loop.End()
+		return fk, !inside
 	}
-	lf, lm := atomicOp(fr.Fn.Info(), lc)
-	rf, rm := atomicOp(fr.Fn.Info(), rc)
-	if lm != "Load" || rm != "Load" {
-		return ""
-	}
+	lf, ls := operand(be.X)
+	rf, rs := operand(be.Y)
 	op := be.Op
 	switch {
-	case lf == c.R.FInflight && rf == c.R.FLimit:
-	case lf == c.R.FLimit && rf == c.R.FInflight:
+	case lf == c.R.FInflight && rf == c.R.FLimit && lf != "":
+	case lf == c.R.FLimit && rf == c.R.FInflight && lf != "":
 		// mirror
 		switch op {
 		case token.LSS:
@@ -64,6 +113,9 @@ func (c *Ctx) capSym(fr *Frame, e ast.Expr, branch bool) string {
 		}
 	default:
 		return ""
+	}
+	if ls || rs {
+		return "cap=stale"
 	}
 	// now: inflight <op> limit
 	switch {
@@ -108,10 +160,10 @@ func (c *Ctx) ruleIncrementSite(rule string) {
 		}
 		steps++
 		desc := "[" + strings.Join(sg.Syms, " ") + "]"
-		good := sg.Kind == "iter" && sg.before("cap=true", "step") && !sg.has("cap=weak") && sg.count("step") == 1
+		good := sg.Kind == "iter" && sg.before("cap=true", "step") && !sg.has("cap=weak") && !sg.has("cap=stale") && sg.count("step") == 1
 		c.Rep.check(good, rule, R.DispLoop.Short(), "dispatcher step not guarded by inflight < limit", sg.End,
 			"step is control-dependent on inflight.Load() < limit.Load() in the same iteration",
-			"the dispatcher step is reached without `inflight.Load() < limit.Load()` having been evaluated true in the same loop iteration (or with a weaker comparison): "+desc)
+			"the dispatcher step is reached without `inflight.Load() < limit.Load()` having been evaluated true in the same loop iteration (or with a weaker comparison, or against a limit/in-flight value loaded outside the loop, which a TunePool in between makes stale): "+desc)
 	}
 	if steps == 0 {
 		c.Rep.undecided(rule, R.DispLoop.Short(), "no step call found in the dispatcher goroutine", "", "the dispatcher goroutine never reaches the step")
@@ -303,11 +355,16 @@ func (c *Ctx) ruleLimitWrites(rule string) {
 		}
 		return false, "unrecognised source " + types.ExprString(e)
 	}
+	tune := c.methodOf(R.WorkerT, "TunePool")
 	for _, cs := range c.P.allCalls(false) {
 		fk, m := atomicOp(cs.In.Info(), cs.Call)
 		if fk != R.FLimit || fk == "" || (m != "Store" && m != "Swap" && m != "Add" && m != "CompareAndSwap") {
 			continue
 		}
+		// the live limit is set at construction and changed by TunePool only: anything else (e.g. Restart putting
+		// the configured value back) silently undoes a TunePool
+		c.Rep.check(cs.In == tune || c.storeOnFreshJob(cs), rule, cs.In.Short(), "limit changed outside TunePool", c.P.pos(cs.Call), "limit stored by a constructor or TunePool",
+			"the live concurrency limit is changed in "+cs.In.Short()+": only TunePool may change it after construction (a later reset to the configured value raises the parallelism above what TunePool(n) promised)")
 		if m != "Store" || len(cs.Call.Args) != 1 {
 			c.Rep.fail(rule, cs.In.Short(), "limit modified by "+m, c.P.pos(cs.Call), "the concurrency limit must only be set with Store of a value known to be >= 1")
 			continue
